@@ -75,8 +75,12 @@ def normLabel (s : Str) : Str :=
   let l := lowerAscii s
   if l = "licence".toList then "license".toList else l
 
+/-- names that are not free for an unknown (extra) field: the DEP-5 field names, and `Format-Specification`, the
+pre-1.0 name of `Format`, which the classifier also takes as the mark of a header paragraph (a files paragraph
+carrying it is classified as a header by the pinned code; such a paragraph is left outside the grammar) -/
 def knownLabels : List String :=
-  ["format", "upstream-name", "upstream-contact", "source", "disclaimer", "comment", "copyright", "license", "files", "files-excluded"]
+  ["format", "upstream-name", "upstream-contact", "source", "disclaimer", "comment", "copyright", "license", "files", "files-excluded",
+   "format-specification"]
 
 def labelOk (f : Field) : Bool :=
   headP isAsciiAlpha f.label && f.label.all (fun c => isAsciiAlnum c || c == '-') &&
